@@ -54,6 +54,14 @@ def make_events(rng, n):
             if k == 0:
                 e = blank(len(evs) + 1, "concat")
                 p, q = build_path(gen.path_recipe(rng, doc, maxlen=3)), build_path(gen.path_recipe(rng, doc, maxlen=2))
+                if rng.random() < 0.3:
+                    q = build_path([])                      # joined with the empty path
+                from harness.props.pathdrv import apply_mods
+                if rng.random() < 0.5:                      # modifiers of either operand do not survive the join
+                    p = apply_mods(p, rng.choice(["none", "length", "dtype", "map_keys"]),
+                                   "none" if p.is_concrete else rng.choice(["none", "first", "last", "all"]), "dm")
+                if rng.random() < 0.3 and len(q):
+                    q = apply_mods(q, rng.choice(["none", "length"]), "none" if q.is_concrete else rng.choice(["none", "first"]), "dm")
                 e["p"], e["q"] = enc_path(p), enc_path(q)
                 out, r = outcome_of(lambda: p / q)
                 e["outcome"] = out
